@@ -355,8 +355,12 @@ func (g *Gen) Value(t reflect.Type, depth int) reflect.Value {
 		}
 	case reflect.Slice:
 		if t == Catalogue[1] { // json.RawMessage
-			switch r.Intn(8) {
+			switch r.Intn(10) {
 			case 0:
+			case 8:
+				v.SetBytes([]byte([]string{" 1 ", "[1, 2]", "{ }", "\t\"a\" ", "[ ]", " null", "\n0", "{\"a\": 1}"}[r.Intn(8)]))
+			case 9:
+				v.SetBytes([]byte([]string{"{", "1 2", "tru", "\"a", "[1,]", "01"}[r.Intn(6)]))
 			case 1:
 				v.SetBytes([]byte{})
 			case 2:
